@@ -18,7 +18,7 @@ MANIFEST_INFO = {
     "engine": "B",
     "design_ref": "DESIGN.md section 5, C18",
     "technique": "explicit-state BFS over add_rule/startTestRun/stopTestRun/status histories on a real StreamResultRouter with recording sinks, routing-precedence reference model per step; exhaustive enumeration of StreamToQueue/consuming-router nestings",
-    "level_text": "All histories of <= 6 (quick) / 8 (thorough) operations over 12 rule kinds with a new sink each and 6 that add a further rule for the fallback or the most recent sink (<=3 unambiguous rules), run start/stop and 21 status events (7 route codes of 0..4 segments x 3 test ids) are executed on a fresh real router per fallback configuration; after every operation every sink's log is compared with the model (exactly one destination, fields unchanged, exactly one leading segment consumed, start/stop delivered once to registered sinks only). The push/pop inverse is enumerated for every nesting of 1..3 StreamToQueue codes over 4 original route codes.",
+    "level_text": "All histories of <= 6 (quick) / 8 (thorough) operations over 12 rule kinds with a new sink each and 12 that add a further rule (with or without do_start_stop_run) for the fallback or the most recent sink (<=3 unambiguous rules), run start/stop and 21 status events (7 route codes of 0..4 segments x 3 test ids) are executed on a fresh real router per fallback configuration; after every operation every sink's log is compared with the model (exactly one destination, fields unchanged, exactly one leading segment consumed, start/stop delivered once to registered sinks only). The push/pop inverse is enumerated for every nesting of 1..3 StreamToQueue codes over 4 original route codes.",
     "level_note": "Events are passed by keyword (as every caller in testtools does); ambiguous rule sets (two rules for one prefix or id) are documented as undefined and not generated.",
 }
 
@@ -32,7 +32,7 @@ RULE_OPS = tuple(
 )
 # a further rule (default do_start_stop_run) for a sink that is known already: the fallback ("F") or
 # the sink of the most recent rule ("last")
-SAME_OPS = tuple([("rule_prefix_same", p, t) for p in ("0", "1") for t in ("F", "last")] + [("rule_id_same", "a", t) for t in ("F", "last")])
+SAME_OPS = tuple([("rule_prefix_same", p, t, d) for p in ("0", "1") for t in ("F", "last") for d in (False, True)] + [("rule_id_same", "a", t, d) for t in ("F", "last") for d in (False, True)])
 FALLBACKS = ("none", "fallback+startstop", "fallback-nostartstop")
 
 
@@ -153,13 +153,19 @@ class System:
                 idx = "F" if op[2] == "F" else m.nsinks - 1
                 sink = impl.fb if op[2] == "F" else impl.sinks[idx]
                 m.nrules += 1
-                # routing changes; nothing is delivered now, and start/stop registration is unchanged
+                # routing changes; a sink that is registered for start/stop already stays registered
+                # ONCE (start/stop reach it once per run however many of its rules asked for them)
+                dss = op[3]
+                if dss and idx not in m.registered:
+                    m.registered.append(idx)
+                    if m.in_run:
+                        expected[idx].append(("startTestRun",))
                 if name == "rule_prefix_same":
                     m.prefixes[op[1]] = (idx, False)
-                    impl.router.add_rule(sink, "route_code_prefix", route_prefix=op[1])
+                    impl.router.add_rule(sink, "route_code_prefix", route_prefix=op[1], do_start_stop_run=dss)
                 else:
                     m.ids[op[1]] = idx
-                    impl.router.add_rule(sink, "test_id", test_id=op[1])
+                    impl.router.add_rule(sink, "test_id", test_id=op[1], do_start_stop_run=dss)
             elif name in ("rule_prefix", "rule_id"):
                 sink = rec.Stream()
                 idx = len(impl.sinks)
